@@ -34,6 +34,8 @@ def handler(st, opts):
         ref = (dense_op(A) @ project.dense(x.cores).reshape(-1)).reshape(M)
         g = rand_tt(tt, M, 2, gen, dt) if cfg["guess"] != "none" else None
         kw = {}
+        if cfg["guess"] == "zero":
+            g = tt.zeros(M, dtype=dt)
         if cfg["guess"] in ("exact1", "exact2"):       # the exact product as the guess and a sweep budget of 1 / 2 (final-sweep branch)
             g = tt.TT(ref.clone(), eps=1e-14)
             kw = {"nswp": int(cfg["guess"][-1])}
@@ -76,6 +78,8 @@ def handler(st, opts):
             A = 1e3 * A
         Ad = dense_op(A); bd = project.dense(b.cores).reshape(-1)
         g = rand_tt(tt, N, 2, gen, dt) if cfg["guess"] != "none" else None
+        if cfg["guess"] == "zero":
+            g = tt.zeros(N, dtype=dt)
         prec = None if cfg["prec"] == "none" else cfg["prec"]
         objs, names = [A, b] + ([g] if g is not None else []), ["A", "b"] + (["x0"] if g is not None else [])
         outs = {}
